@@ -62,7 +62,18 @@ def pool():
     """records generated once per process (content is irrelevant to the property, identity of bytes is what counts)"""
     if _pool:
         return _pool
-    ids = [KeyHelper.generateIdentityKeyPair().getPublicKey() for _ in range(3)]
+    id_pairs = [KeyHelper.generateIdentityKeyPair() for _ in range(3)]
+    ids = [p.getPublicKey() for p in id_pairs]
+    # key bundles a contact publishes under each of those identities (two per identity: it publishes fresh keys now and then)
+    bundles = []
+    for k, pair in enumerate(id_pairs):
+        row = []
+        for j in range(2):
+            pk = KeyHelper.generatePreKeys(100 + 10 * k + j, 1)[0]
+            spk = KeyHelper.generateSignedPreKey(pair, 20 + j)
+            row.append(PreKeyBundle(1000 + k, 1, pk.getId(), pk.getKeyPair().getPublicKey(), spk.getId(), spk.getKeyPair().getPublicKey(),
+                                    spk.getSignature(), pair.getPublicKey()))
+        bundles.append(row)
     sessions = []
     for i in range(3):
         a = LiteAxolotlStore(":memory:")
@@ -86,7 +97,7 @@ def pool():
     prekeys = KeyHelper.generatePreKeys(1, 40)
     own = KeyHelper.generateIdentityKeyPair()
     signed = [KeyHelper.generateSignedPreKey(own, i) for i in range(6)]
-    _pool.update(ids=ids, sessions=sessions, sender=sender, prekeys=prekeys, signed=signed)
+    _pool.update(ids=ids, sessions=sessions, sender=sender, prekeys=prekeys, signed=signed, bundles=bundles)
     return _pool
 
 
@@ -166,8 +177,9 @@ def compare(got, exp, own, allow=None):
             e = exp[table].get(k, ABSENT)
             if table == "identities" and e is None:
                 e = ABSENT
-            if allow and allow[0] == table and k in allow[1]:
-                if g not in allow[1][k]:
+            hit = [a for a in (allow if isinstance(allow, list) else [allow] if allow else []) if a[0] == table and k in a[1]]
+            if hit:
+                if g not in hit[0][1][k]:
                     return "%s[%s]: %s is neither the previous nor the new value" % (table, k, _d(g))
                 continue
             if g != e:
@@ -327,6 +339,7 @@ def run_case(case):
         for step, op in enumerate(case["ops"]):
             kind = op[0]
             may_refuse = None
+            post = None
             before = model.copy()
             allow = None
             fn = None
@@ -366,6 +379,36 @@ def run_case(case):
                 may_refuse = ("sessions", c, old)
                 out.label("store_session_other_device")
                 repl = False
+            elif kind == "manager_create_session":
+                # one level above the store, the way the layers do it (a key bundle fetched for a contact: on first contact, after an
+                # identity-change notice, for a retry): AxolotlManager.create_session with auto-trust off.  A bundle under the pinned
+                # identity (or the first one seen) replaces the session; one under another identity is refused and changes nothing.
+                # In every crash state the contact's session is the previous or the new one - never missing when there was one.
+                from yowsup.axolotl.manager import AxolotlManager
+                c = CONTACTS[op[1] % len(CONTACTS)]
+                k = op[2] % len(P["ids"])
+                bundle = P["bundles"][k][op[3] % 2]
+                pinned = before.identities.get(c)
+                old = before.sessions.get(c)
+                accepted = pinned is None or pinned == k
+                sess_ok = ({old} if old is not None else {ABSENT})
+                allow = [("sessions", {c: sess_ok}), ("identities", {c: {pinned if pinned is not None else ABSENT} | ({k} if accepted else set())})]
+                manager = AxolotlManager(store, "4915100000001")
+                fn = lambda: manager.create_session(c, bundle, autotrust=False)  # noqa
+                out.label("manager_create_session:" + ("refused_identity" if not accepted else "replaces_session" if old is not None else "first_session"))
+                repl = old is not None
+                if not accepted:
+                    may_refuse = ("sessions", c, old) if old is not None else ("identities", c, pinned)
+
+                def post(exc, _c=c, _k=k, _ok=sess_ok, _accepted=accepted):
+                    if exc is None:
+                        now = read_store(store, P)["sessions"].get(_c)
+                        if now is not None:
+                            model.sessions[_c] = now
+                            _ok.add(now)
+                        else:
+                            model.sessions.pop(_c, None)
+                        model.identities[_c] = _k
             elif kind in ("delete_session", "delete_all"):
                 c = CONTACTS[op[1] % len(CONTACTS)]
                 old = before.sessions.get(c)
@@ -537,6 +580,8 @@ def run_case(case):
                     exc = None
                 except Exception as e:  # noqa
                     exc = e
+            if post is not None:
+                post(exc)
             if exc is not None and may_refuse is not None:
                 # refused: the previous record must still be there
                 getattr(model, may_refuse[0])[may_refuse[1]] = may_refuse[2]
@@ -613,6 +658,8 @@ def op_strategy():
         st.tuples(st.just("store_session"), sel, sel).map(list),
         st.tuples(st.just("store_session_other_device"), sel, sel).map(list),
         st.tuples(st.just("delete_session"), sel).map(list),
+        st.tuples(st.just("manager_create_session"), sel, sel, sel).map(list),
+        st.tuples(st.just("manager_create_session"), st.sampled_from([0, 0, 1]), st.sampled_from([0, 0, 1]), sel).map(list),
         st.tuples(st.just("delete_all"), sel).map(list),
         st.tuples(st.just("delete_all"), st.sampled_from([0, 0, 1])).map(list),
         st.tuples(st.just("store_session"), st.sampled_from([0, 0, 1]), st.sampled_from([0, 0, 1])).map(list),
@@ -633,6 +680,11 @@ def op_strategy():
 
 
 def _enum_basic():
+    # key bundles through the manager: first session, replacement under the same identity, a refused one under another identity, restart
+    yield {"sub": "script", "ops": [["manager_create_session", 0, 0, 0], ["manager_create_session", 0, 0, 1], ["reopen"],
+                                    ["manager_create_session", 0, 1, 0], ["reopen"], ["manager_create_session", 0, 0, 0], ["reopen"]]}
+    yield {"sub": "script", "ops": [["save_identity", 1, 2], ["store_session", 1, 0], ["manager_create_session", 1, 0, 0], ["reopen"],
+                                    ["manager_create_session", 1, 2, 1], ["reopen"]]}
     yield {"sub": "script", "ops": [["save_identity", 0, 0], ["save_identity", 0, 1], ["reopen"]]}
     yield {"sub": "script", "ops": [["store_session", 0, 0], ["store_session", 0, 1], ["reopen"]]}
     yield {"sub": "script", "ops": [["store_sender_key", 0, 0, 0], ["store_sender_key", 0, 0, 1], ["reopen"]]}
